@@ -418,6 +418,14 @@ func assertOneHot(api frontend.API, sum frontend.Variable) {
 	api.AssertIsEqual(sum, 1)
 }''')])
 save('benign-flowmust-helper','C14','std/selector/multiplexer.go','the one-hot sum assertion extracted into a helper called unconditionally')
+m('stateclose-multicommit','C13',['STATE-CLOSE'],'std/multicommit/nativecommit.go','''	// close collecting input in case anyone wants to check more variables to commit to.
+	mct.closed = true
+	if len(mct.cbs) == 0 {''','''	if len(mct.vars) == 0 && len(mct.cbs) == 1 {
+		return mct.cbs[0](api, 0)
+	}
+	// close collecting input in case anyone wants to check more variables to commit to.
+	mct.closed = true
+	if len(mct.cbs) == 0 {''',note='fast path of the multicommitter returns before marking it closed')
 json.dump({'comment':'selftest mutants: each patch breaks one rule instance and must be detected by the listed rule(s) of its property; produced by tools/make_selftest.py','mutants':M}, open(os.path.join(root,'selftest','mutants.json'),'w'), indent=1)
 subprocess.run(['git','-C','/repo','worktree','remove','--force',WT],capture_output=True)
 print(len(M),'mutants')
